@@ -88,6 +88,7 @@ func label(c *stats.Case, ex *expectation, in []byte, kind string, tr transport)
 	for k := range ex.classes {
 		c.Label("known-class-hit:" + k)
 	}
+	labelNulls(c, ex)
 	if len(ex.scen) == 0 {
 		return
 	}
@@ -119,6 +120,16 @@ func label(c *stats.Case, ex *expectation, in []byte, kind string, tr transport)
 	}
 }
 
+// labelNulls records how the model treated explicit null arguments of the case (by outcome and by parameter kind).
+func labelNulls(c *stats.Case, ex *expectation) {
+	for k := range ex.nulls {
+		c.Label("null-arg:" + k)
+	}
+	if ex.isArray && len(ex.nulls) > 0 {
+		c.Label("null-arg:inside-batch")
+	}
+}
+
 func sampleOf(in []byte, ex *expectation) func() any {
 	return func() any {
 		cl := []string{}
@@ -132,8 +143,8 @@ func sampleOf(in []byte, ex *expectation) func() any {
 }
 
 const structuredRule = "rapid grammar of request documents: each envelope member (jsonrpc, method, params, id) valid / missing / ill-typed, " +
-	"17 methods covering every binding shape, params good / omitted / too few / too many / unknown name / missing required / ill-typed value / " +
-	"validator failure / scalar / null, by position or by name, ids of every JSON type, batches of 0-30 entries mixing calls, notifications, " +
+	"21 methods covering every binding shape, params good / omitted / too few / too many / unknown name / missing required / ill-typed value / " +
+	"validator failure / scalar / null / one explicit null argument (every parameter kind), by position or by name, ids of every JSON type, batches of 0-30 entries mixing calls, notifications, " +
 	"invalid and non-object entries, nested arrays, duplicate and extra members, leading whitespace up to 5000 bytes, trailing bytes, " +
 	"byte-level damage; oracle = reference model of JSON-RPC 2.0 dispatch (multiset of (id, result | error code) + invocation log); " +
 	"non-trivial = input is valid JSON holding >= 1 well-formed request object; mixed-batch = >= 3 entries of >= 2 classes; " +
@@ -183,11 +194,23 @@ func TestPropPositionalNamedAgree(t *testing.T) {
 			sp := withParams[g.uniform("method", len(withParams))]
 			vals := g.callArgs(sp)
 			bad := false
-			if len(vals) > 0 && g.pick("bad", 4, 1) == 1 {
+			switch {
+			case len(vals) == 0:
+			case g.pick("bad", 7, 2, 2) == 1:
 				at := g.intn("badat", 0, len(vals)-1)
 				if bv := g.badValue(sp.params[at].t); bv != nil {
 					vals[at], bad = bv, true
 				}
+			case true:
+				if g.pick("null", 1, 1) == 1 {
+					break
+				}
+				at := g.uniform("nullat", len(vals))
+				vals[at] = jnull()
+				if _, st := check(sp.params[at].t, vals[at]); st == stBad {
+					bad = true
+				}
+				c.Label("args:one-explicit-null")
 			}
 			var id *jv
 			if g.pick("notif", 5, 1) == 0 {
@@ -207,6 +230,7 @@ func TestPropPositionalNamedAgree(t *testing.T) {
 			inPos := build(positional(vals))
 			inNamed := build(g.named(sp, vals, nil))
 			exP := checkOne(c, h, trReader, inPos, nil)
+			labelNulls(c, exP)
 			outP := append([]byte{}, h.lastOut...)
 			logP := h.rec.snapshot()
 			checkOne(c, h, trReader, inNamed, nil)
@@ -337,6 +361,7 @@ func TestRaceBatch(t *testing.T) {
 			c.Labelf("pool:%d", pool)
 			c.Labelf("concurrent-batches:%d", nb)
 			for b, ex := range exs {
+				labelNulls(c, ex)
 				c.Fp("%s", ins[b])
 				classes := map[string]struct{}{}
 				for _, e := range ex.scen[0].entries {
@@ -411,6 +436,30 @@ var fuzzSeeds = []string{
 	`{"jsonrpc":"2.0","id":1,"method":"emptyish","params":[2]}`,
 	`{"jsonrpc":"2.0","id":1,"method":"nilResult"}`,
 	`{"jsonrpc":"2.0","id":1,"method":"uni✓ \"q\"\n"}`,
+	// explicit null arguments for every parameter kind
+	`{"jsonrpc":"2.0","id":1,"method":"sub","params":[null,1]}`,
+	`{"jsonrpc":"2.0","id":1,"method":"ctxTwo","params":{"s":null,"f":null}}`,
+	`{"jsonrpc":"2.0","id":1,"method":"opt","params":[1,null,null]}`,
+	`{"jsonrpc":"2.0","id":1,"method":"val","params":[null]}`,
+	`{"jsonrpc":"2.0","id":1,"method":"val","params":{"v":null}}`,
+	`{"jsonrpc":"2.0","id":1,"method":"valPtr","params":[null]}`,
+	`{"jsonrpc":"2.0","id":1,"method":"valSlice","params":[null]}`,
+	`{"jsonrpc":"2.0","id":1,"method":"valSlice","params":[[null]]}`,
+	`{"jsonrpc":"2.0","id":1,"method":"valMap","params":[null]}`,
+	`{"jsonrpc":"2.0","id":1,"method":"valMapVal","params":[{"k":null}]}`,
+	`{"jsonrpc":"2.0","id":1,"method":"valMapVal","params":{"m":null}}`,
+	`{"jsonrpc":"2.0","id":1,"method":"valOpt","params":[1,null]}`,
+	`{"jsonrpc":"2.0","id":1,"method":"valOpt","params":{"a":1,"v":null}}`,
+	`{"jsonrpc":"2.0","id":1,"method":"valOpt","params":[1]}`,
+	`{"jsonrpc":"2.0","id":1,"method":"req","params":[null]}`,
+	`{"jsonrpc":"2.0","id":1,"method":"req","params":[{"name":null}]}`,
+	`{"jsonrpc":"2.0","id":1,"method":"nn","params":[null]}`,
+	`{"jsonrpc":"2.0","id":1,"method":"nn","params":{"x":3,"y":null}}`,
+	`{"jsonrpc":"2.0","id":1,"method":"nn","params":[3]}`,
+	`{"jsonrpc":"2.0","id":1,"method":"raw","params":[null]}`,
+	`{"jsonrpc":"2.0","id":1,"method":"fail","params":[null,null]}`,
+	`{"jsonrpc":"2.0","id":1,"method":"allOpt","params":[null,null]}`,
+	`[{"jsonrpc":"2.0","id":1,"method":"nn","params":[null]},{"jsonrpc":"2.0","id":2,"method":"val","params":{"v":null}},{"jsonrpc":"2.0","method":"req","params":[null],"id":3}]`,
 	// JSON-RPC 2.0 specification examples not covered above
 	`{"jsonrpc": "2.0", "method": 1, "params": "bar"}`,
 	`{"jsonrpc": "2.0", "method": "foobar, "params": "bar", "baz]`,
